@@ -238,6 +238,9 @@ class SpecMixin:
             cur = V(fresh_val("noeff"), None)
             for e in es:
                 se = e.st.copy(); se.env = dict(st.env)
+                k_ = next((i_ for i_, y_ in enumerate(st.trace) if y_ is e or y_.orig is e.orig), None)
+                if k_ is not None:
+                    se.trace = list(st.trace[:k_ + 1])      # the trace up to and including that effect (its own arguments / result are visible)
                 x = self.ev1(se, a[1])
                 cur = V(z3.If(e.g(), x.t, cur.t), x.ty)
             return [Res(st, cur)]
